@@ -248,6 +248,14 @@ pub fn replay(w: &World, beh: &Value) -> Value {
                     }
                 }
                 if let Some(rk) = done.first() {
+                    // the collective relinearization key as RLWE samples under S = s_1 + .. + s_n with payload P * S^2 on prime i;
+                    // the error of protocol 2 (Mouchet et al.) is a sum of products of secrets, ternary masks and errors: |e| <= 4 N n^2 21
+                    let kw = crate::keys::KeyWorld::new(&w.ctx);
+                    let ss = kw.secret(&sk_sum);
+                    let s2: Vec<Vec<u64>> = (0..kw.q.len()).map(|j| crate::keys::negacyclic_mul(&ss[j], &ss[j], kw.q[j])).collect();
+                    let comps: Vec<Vec<Vec<u64>>> = rk.as_kswitch_keys().data()[0].iter().enumerate().map(|(i, c)| kw.error_of(c.as_ciphertext(), &ss, &kw.payload_on(i, &s2))).collect();
+                    let mult = if w.ps.scheme == SchemeType::BGV { w.ps.t } else { 1 };
+                    key_events.push(json!({"ev": "key_rlwe", "what": "collective_relin_key", "detail": {"parties": n}, "n": kw.n, "q": kw.q, "bound": 4 * kw.n * n * n * 21, "mult": mult, "comps": comps}));
                     let ev = Evaluator::new(w.ctx.clone());
                     let r = guarded(|| ev.relinearize_new(&ev.multiply_new(&cipher, &cipher), rk));
                     let sq: Value = if w.ps.scheme == SchemeType::CKKS {
